@@ -414,7 +414,7 @@ def jobs(tier):
         js.append(chord_routing_job(size))
     ssz = {
         'beat': [(0, 0), (1, 1), (2, 1)] if q else [(0, 0), (1, 1), (2, 1), (1, 2)],
-        'onset': [(0, 0), (2, 2)], 'segment': [(1, 1, 1.0), (1, 0, 1.0)] if q else [(1, 1, 1.0), (1, 0, 1.0), (0, 1, 1.0)],
+        'onset': [(0, 0), (2, 2)], 'segment': [(1, 1, 1.0), (1, 0, 1.0)] if q else [(1, 1, 1.0), (1, 0, 1.0), (1, 2, 1.0)],
         'melody': [(1, 0), (2, 0), (1, 2)], 'multipitch': [(1, 1), (0, 1)] if q else [(1, 1), (0, 1), (2, 1)],
         'transcription': [(0, 1), (1, 1)] if q else [(0, 1), (1, 1), (1, 2)], 'tempo': [(2, 2)],
         'pattern': [(1, 1), (0, 1)] if q else [(1, 1), (0, 1), (2, 1)], 'hierarchy': [(2, 2)], 'alignment': [(2,), (3,)],
